@@ -20,7 +20,7 @@ CHECKS = {
  "C01": dict(
    engine="world",
    category="exploration",
-   text="Seeded simulation of update histories (1-3 real Mineral objects; seeded partition, interleaving, regime switching, restart through the store, faulted updates and retries, bulk updates failing part-way over histories of different lengths, overlapped caller threads, time origins up to 1e6, rotation-dominated / compact-support / PyDRex's own flows and pathlines, solver kwargs); count, shape, simplex, range, orthonormality-bound, immutability and seed-reproducibility clauses are checked on every mineral after every op against a reference model holding copies and hashes of every snapshot ever stored. Evidence over the seeds explored, not proof.",
+   text="Seeded simulation of update histories (1-3 real Mineral objects; seeded partition, interleaving, regime switching, restart through the store, faulted updates and retries, bulk updates failing part-way over histories of different lengths, overlapped caller threads, time origins up to 1e6, rotation-dominated / compact-support / exactly stagnant (zero, gated) / PyDRex's own flows and pathlines, solver kwargs); count, shape, simplex, range, orthonormality-bound, immutability and seed-reproducibility clauses are checked on every mineral after every op against a reference model holding copies and hashes of every snapshot ever stored. Evidence over the seeds explored, not proof.",
    design_ref="DESIGN.md 4.1",
    note="scipy LSODA trusted as a black box; updates that raise without an injected fault count as rejected (coverage floor: >= 50% of fault-free updates must complete); two listed known findings for the orthonormality clause (matrix_diffusion regime; > 6 rad of rigid rotation at tiny strain) are matched narrowly and printed as KNOWN-FINDING lines",
    technique="deterministic simulation: seeded histories with fault injection, invariants after every event",
@@ -68,7 +68,7 @@ CHECKS = {
  "C08": dict(
    engine="world",
    category="exploration",
-   text="Seeded scheduler over 2-4 real Mineral objects (both phases, own flows/params/pathlines): call-level interleavings plus overlapped updates in which 2-3 minerals are advanced by real caller threads parked at every collaborator callback and released one at a time following a baton sequence that is part of the scenario; neighbours' updates carry injected faults. Every mineral's history (all snapshots, every returned F, every status) must be BIT-IDENTICAL between the interleaved/overlapped execution, its solo execution, the execution with phase and fraction lists permuted together, the execution handing an equal but newly built params dict to every call (while the driver rewrites phase fractions in place between calls), the execution with only the other phase's fraction changed, and an identically built and driven duplicate; one bulk update from the reached state in two orders must give every mineral the snapshot of its own single update and return the last mineral's F; the single-phase mineral with mobility M* x phi is compared at 1e-6 (tight solver).",
+   text="Seeded scheduler over 2-4 real Mineral objects (both phases, own flows/params/pathlines): call-level interleavings plus overlapped updates in which 2-3 minerals are advanced by real caller threads parked at every collaborator callback and released one at a time following a baton sequence that is part of the scenario; neighbours' updates carry injected faults. Every mineral's history (all snapshots, every returned F, every status) must be BIT-IDENTICAL between the interleaved/overlapped execution, its solo execution, the execution with phase and fraction lists permuted together (for the whole history, and reversed in place before a seeded subset of the calls), the execution handing an equal but newly built params dict to every call (while the driver rewrites phase fractions in place between calls), the execution with only the other phase's fraction changed, and an identically built and driven duplicate; one bulk update from the reached state in two orders must give every mineral the snapshot of its own single update and return the last mineral's F; the single-phase mineral with mobility M* x phi is compared at 1e-6 (tight solver).",
    design_ref="DESIGN.md 4.6",
    note="nested same-thread re-entry excluded (scipy LSODA forbids it); threads are real, the choice of who runs between two callbacks is the simulator's (watchdog turns a stuck hand-over into exit 2)",
    technique="deterministic simulation: seeded scheduler with baton-passed caller threads, bit-identity against solo twin",
@@ -84,7 +84,7 @@ CHECKS = {
  "C17": dict(
    engine="simstore",
    category="exploration",
-   text="Seeded save/load histories over several real NPZ archives in a private directory are checked operation by operation against an in-memory reference map (archive, postfix) -> saved state: loads through Mineral.from_file and Mineral.load (into existing objects whose phase, fabric, regime, grain count and history differ) must restore phase, fabric, regime, grain count and every snapshot bytewise (NaN payloads, infinities, -0.0, denormals); after every operation every judged key of every archive is re-loaded (isolation); restarts drop all in-memory objects; 37 postfix shapes (punctuation, blanks, path separators, unicode, non-string), absolute and cwd-relative file names; rejected operations injected at arbitrary points (unequal snapshot counts, array sizes != grain count, non-NPZ names; fresh path / existing archive / missing parent directory) must raise ValueError and leave the file-system snapshot (tree, sizes, content hashes) unchanged.",
+   text="Seeded save/load histories over several real NPZ archives in a private directory are checked operation by operation against an in-memory reference map (archive, postfix) -> saved state: loads through Mineral.from_file and Mineral.load (into existing objects whose phase, fabric, regime, grain count and history differ) must restore phase, fabric, regime, grain count and every snapshot bytewise (NaN payloads, infinities, -0.0, denormals); after every operation every judged key of every archive is re-loaded (isolation); restarts drop all in-memory objects; 39 postfix shapes (punctuation, blanks, path separators, unicode, non-string, falsy non-None), absolute and cwd-relative file names; rejected operations injected at arbitrary points (unequal snapshot counts, array sizes != grain count, non-NPZ names; fresh path / existing archive / missing parent directory) must raise ValueError and leave the file-system snapshot (tree, sizes, content hashes) unchanged.",
    design_ref="DESIGN.md 4.9",
    note="judged: whole-file save loaded back with nothing in between, and distinct-postfix saves into postfix-only archives; mixing whole-file and postfix saves, postfix re-use, non-.npz save names and crash consistency under I/O errors are generated/observed but not judged (statement silent)",
    technique="deterministic simulation: seeded operation histories against a reference store model with injected rejected operations",
